@@ -414,11 +414,64 @@ def signature_value_sweep(ctx, rng):
         ctx.case(('sig-sweep', kind), nontrivial=True)
 
 
+def concurrent_union(ctx, rng):
+    """ONE chain built with the library's combinator - an asynchronous member (a name policy that suspends, as a policy that looks
+    something up does) in front of the signature checker - validates several packets AT ONCE (a receive pipeline does): genuine
+    ones, ones whose content was changed after signing, ones the policy refuses.  Every verdict is what the same chain says when
+    asked about that packet alone."""
+    import asyncio
+    for kind in ('hmac', 'ecdsa256', 'ed25519'):
+        signer, sinfo = pkts.make_signer(rng, kind, gen.simple_name(rng, 2, 3))
+        kn = sinfo['key_name']
+        for rep in range(ctx.n(25, 3000)):
+            member = {'hmac': lambda: HmacChecker.from_key(kn, sinfo['key']), 'ecdsa256': lambda: EccChecker.from_key(kn, sinfo['pub']),
+                      'ed25519': lambda: Ed25519Checker.from_key(kn, sinfo['pub'])}[kind]()
+            delays = {}
+
+            async def policy(name, sig, *a):
+                for _ in range(delays.get(bytes(name[-1]), 0)):
+                    await asyncio.sleep(0)
+                return bytes(name[0]) != rc.comp(8, b'refused')
+            order = rng.choice(['policy-first', 'policy-first', 'policy-last', 'policy-between'])
+            if order == 'policy-first':
+                chain = union_checker(policy, member)
+            elif order == 'policy-last':
+                chain = union_checker(member, policy)
+            else:
+                chain = union_checker(sha256_digest_checker, policy, member)
+            jobs = []
+            for j in range(rng.randint(2, 6)):
+                what = rng.choice(['genuine', 'genuine', 'content-changed', 'refused-by-policy'])
+                first = rc.comp(8, b'refused') if what == 'refused-by-policy' else rc.comp(8, b'ok')
+                tag = rc.comp(8, b'%d-%d' % (rep, j))
+                wire = bytes(make_data([first, tag], MetaInfo(), b'content-%d' % j, signer))
+                if what == 'content-changed':
+                    i_ = wire.index(b'content-%d' % j)
+                    wire = wire[:i_] + b'C' + wire[i_ + 1:]
+                delays[tag] = rng.choice([0, 1, 1, 2, 3, 5])
+                jobs.append((what, wire))
+            parsed = [parse_any(True, w_) for what, w_ in jobs]
+
+            async def all_at_once():
+                return await asyncio.gather(*[chain(n_, s_) for (n_, s_) in parsed], return_exceptions=True)
+            got = run_sync(all_at_once())
+            ctx.event('packets-validated-at-once-by-one-chain', len(jobs))
+            ctx.case(('concurrent-union', kind, order, tuple(w_ for w_, _ in jobs)), nontrivial=True)
+            for (what, wire), g in zip(jobs, got):
+                exp = what == 'genuine'
+                ok = (g is True) if not isinstance(g, BaseException) else False        # (raising is not accepting)
+                if ok != exp:
+                    ctx.report(('tampered-accepted' if ok else 'verifier-rejects-valid') + f':union_checker:validated-at-once:{order}',
+                               f'a chain ({order}) that validates {len(jobs)} packets at once said {g!r} for a {what} packet', {'signer': kind, 'batch': [w_ for w_, _ in jobs], 'wire': wire})
+
+
 def run(ctx):
     ctx.rule = RULE
     rng = ctx.rng
     if ctx.shard == 0:
         signature_value_sweep(ctx, rng)
+    concurrent_union(ctx, rng)
+    ctx.need_event('packets-validated-at-once-by-one-chain')
     n = ctx.n(36, 4000)
     budget = 260 if ctx.quick else 900
     for i in range(n):
